@@ -4,6 +4,7 @@
 import LMV.Lemmas.Stream
 import LMV.Lemmas.JasparRT
 import LMV.Lemmas.Jaspar16RT
+import LMV.Lemmas.UniprobeRT
 
 namespace LMV
 namespace C14
@@ -82,6 +83,33 @@ example : outcomes (Jaspar.next (Jaspar16.record dna) Jaspar.growAmortized) 3
     (Jaspar.new Jaspar.growAmortized [4, 1] (Jaspar16.render dna demo16))
       = demo16.map (fun r => Outcome.record (Jaspar16.expect dna r)) ++ [Outcome.done] :=
   jaspar16_round_trip dna dna_lettersOK _ _ demo16 (by decide)
+
+/-- **UniPROBE round trip.**  For every scalar type and conversion `conv` of float lexemes (the
+    driver's instance is IEEE `f32` with `str::parse`), every frequency test `freqOk`, every list of
+    well-formed motifs (symbol lines in any order, any non-empty duplicate-free subset of the
+    alphabet, plain decimal lexemes `digits[.digits]` that `conv` accepts, rows accepted by
+    `freqOk`) and every chunk schedule, the reader returns exactly those motifs, in order, with the
+    value of every lexeme in the row of its position and the column of its symbol, then the end. -/
+theorem uniprobe_round_trip {α : Type} (A : Alphabet) (hA : A.LettersOK) (hB : Uniprobe.LettersNotBlank A)
+    (conv : Bytes → Option α) (zero : α) (freqOk : Mat α A.K → Bool) (sched : List Nat)
+    (rs : List Uniprobe.Src) (hwf : ∀ r ∈ rs, Uniprobe.WF A conv zero freqOk r) :
+    outcomes (Uniprobe.next A conv zero freqOk) (rs.length + 1) (Uniprobe.new sched (Uniprobe.render A rs))
+      = rs.map (fun r => Outcome.record (Uniprobe.expect A conv zero r)) ++ [Outcome.done] :=
+  Uniprobe.roundTrip A conv zero freqOk hA hB sched rs hwf
+
+theorem alphabets_lettersNotBlank : Uniprobe.LettersNotBlank dna ∧ Uniprobe.LettersNotBlank protein :=
+  ⟨Uniprobe.dna_lettersNotBlank, Uniprobe.protein_lettersNotBlank⟩
+
+/-- a lexeme is a fraction of 1000 here: `conv` reads `0.xyz` as `xyz` -/
+def demoConv (lex : Bytes) : Option Nat :=
+  match lex with
+  | [0x30, 0x2E, a, b, c] => some ((a.toNat - 48) * 100 + (b.toNat - 48) * 10 + (c.toNat - 48))
+  | _ => none
+
+def demoU : List Uniprobe.Src :=
+  [{ id := [0x4D, 0x31], cols := [(2, [[0x30, 0x2E, 0x32, 0x35, 0x30]]), (0, [[0x30, 0x2E, 0x37, 0x35, 0x30]])] }]
+
+example : ∀ r ∈ demoU, Uniprobe.WF dna demoConv 0 (fun _ => true) r := by decide
 
 end C14
 end LMV
